@@ -56,6 +56,9 @@ type Hooks struct {
 	// Visit: callee hands its items to a callback argument one by one; returns the index of that argument and the
 	// abstract item(s) of one iteration. The callback is run once inline.
 	Visit func(st *State, callee string, recv Val, args []Val) (arg int, items []Val, ok bool)
+	// FreeVar resolves a variable that is free in the interpreted body to the pure expression it is defined as in
+	// the enclosing function (nil: leave it symbolic).
+	FreeVar func(v *types.Var) ast.Expr
 	// FreeClosure resolves a variable that is free in the interpreted body (declared in the enclosing function)
 	// to the function literal it is bound to, when that binding is unique.
 	FreeClosure func(v *types.Var) *ast.FuncLit
@@ -71,6 +74,8 @@ type Interp struct {
 	loopIDs   map[ast.Stmt]int
 	infoStack []*types.Info
 	cuts      []*State // paths cut inside inlined functions (loop state repeated)
+	// captured variables whose definition is being evaluated in their place (FreeVar), against cycles
+	resolvingFree map[*types.Var]bool
 }
 
 type State struct {
@@ -824,10 +829,22 @@ func (in *Interp) execLoop(loop ast.Stmt, st *State, label string) []result {
 					kname := "i" + tag
 					if id, ok := rs.Key.(*ast.Ident); ok && id.Name != "_" {
 						kname = id.Name + tag
+						// an index is never negative (the key of a map may be)
+						nonNeg := false
+						if t := in.info().TypeOf(rs.X); t != nil {
+							switch u := t.Underlying().(type) {
+							case *types.Slice, *types.Array:
+								nonNeg = true
+							case *types.Pointer:
+								_, nonNeg = u.Elem().Underlying().(*types.Array)
+							case *types.Basic:
+								nonNeg = u.Info()&(types.IsString|types.IsInteger) != 0
+							}
+						}
 						if o := in.info().Defs[id]; o != nil {
-							e.env[o] = Sym{Name: kname}
+							e.env[o] = Sym{Name: kname, NonNeg: nonNeg}
 						} else if o := in.info().Uses[id]; o != nil {
-							e.env[o] = Sym{Name: kname}
+							e.env[o] = Sym{Name: kname, NonNeg: nonNeg}
 						}
 					}
 					if id, ok := rs.Value.(*ast.Ident); ok && id.Name != "_" {
